@@ -203,6 +203,9 @@ def events_view(app, limit=60):
 def build_case(spec, max_msgs=12, max_size=2000, adversary=True):
     seed = spec["seed"]
     world = World(seed, mailbox_mode=spec.get("mode", "tcp"), welcome_error=spec.get("welcome_error"))
+    if spec.get("welcome") is not None:
+        # a server that greets with exactly this welcome (older servers send an empty one)
+        world.welcome_override = spec["welcome"]
     rng = world.work_rng
     kind = spec["kind"]
     cfg = {
